@@ -88,8 +88,10 @@ def mh_of(mh) -> dict:
     if n == "StringSizeBetween":
         return {"k": "StrSize", "lo": mh.min, "hi": mh.max, "alpha": [ord(c) for c in mh.options]}
     if n == "WeightedStringHandler":
+        # forbid[i]: the letters whose declared probability at position i is zero
         return {"k": "WeightedStr", "rows": int(mh.probability_matrix.shape[0]),
-                "alpha": [ord(c) for c in mh.alphabet]}
+                "alpha": [ord(c) for c in mh.alphabet],
+                "forbid": [[ord(c) for c, pr in zip(mh.alphabet, row) if float(pr) == 0.0] for row in mh.probability_matrix]}
     if n == "IntervalRange":
         return {"k": "Interval", "minl": mh.minimum_length, "maxl": mh.maximum_length, "top": mh.maximum_top_limit}
     if n == "Dependent":
